@@ -41,7 +41,7 @@ rc, out = run_demo()
 res['demo_passes_without_patch'] = rc == 0
 res['demo_out_without'] = out[-600:]
 clean()
-for d in glob.glob('/tmp/-_tmp_mut_*') + glob.glob('/tmp/' + '-' + wt.strip('/').replace('/', '_') + '*'):
+for d in glob.glob('/tmp/' + '-_' + wt.strip('/').replace('/', '_') + '_*'):
     shutil.rmtree(d, ignore_errors=True)
 json.dump(res, open(os.path.join('/tmp/mut/confirm', os.path.basename(os.path.dirname(sd.rstrip('/'))) + '-' + os.path.basename(sd.rstrip('/')) + '.json'), 'w'), indent=1)
 print(json.dumps({k: v for k, v in res.items() if not k.startswith('demo_out')}))
